@@ -371,6 +371,44 @@ def run_reuse(arg):
     return bad, "reuse"
 
 
+def run_midreuse(arg):
+    """INSIDE one wait() on a process that is not our child: it goes away and its pid is given to a NEW CHILD of the calling
+    program (another thread's subprocess), which later exits with its own status.  wait() may answer None (the process waited
+    for is gone) or run out of time -- never the newcomer's status, and it must not reap the newcomer behind its owner's back"""
+    seed, t_swap, t_exit, timeout = arg
+    import psutil
+    w = World(ncpus=1)
+    w.spawn(1, ppid=0, comm=b"init", start=1)
+    w.spawn(w.mypid, ppid=1, comm=b"caller", start=50)
+    pid = 3400 + seed % 40
+    w.spawn(pid, ppid=1, comm=b"stranger", start=900)
+    use_world(w)
+    w.logging = False
+    bad = []
+    o1 = psutil.Process(pid)
+    state = {}
+
+    def swap(ww):
+        ww.vanish(pid)
+        ww.tick(1)
+        q = ww.spawn(pid, ppid=ww.mypid, comm=b"our-new-child")
+        q.is_child = True
+        state["uid"] = q.uid
+    w.at(w.mono + t_swap, swap)
+    w.at(w.mono + t_exit, lambda ww: ww.exit(pid, 7 << 8) if pid in ww.procs and not ww.procs[pid].zombie else None)
+    r = outcome(o1.wait, timeout)
+    if r[0] == "ok" and r[1] is not None:
+        bad.append(("midreuse:status-of-another-process", "wait(%r) on a non-child whose pid was handed to a new child of ours during the call -> %r "
+                    "(the newcomer exits with 7)" % (timeout, r)))
+    elif r[0] == "exc" and r[1] != "TimeoutExpired":
+        bad.append(("midreuse:wait-raised:%s" % r[1], repr(r)))
+    q = w.procs.get(pid)
+    if "uid" in state and w.mono >= 0 and (q is None or q.uid != state["uid"]) and state["uid"] in getattr(w, "dead", {}):
+        if getattr(w.dead[state["uid"]], "reaped_by_waitpid", True) and q is None:
+            bad.append(("midreuse:newcomer-reaped-by-wait", "the new child (exit status 7) was reaped by the wait() of another Process object"))
+    return bad, "midreuse"
+
+
 # ------------------------------------------------------------------ psutil.Popen on the real kernel
 POPEN_ENDS = [("exit", 0), ("exit", 3), ("exit", 255), ("sig", 9), ("sig", 15)]
 POPEN_SEQS = [("wait", "wait"), ("wait", "poll", "wait"), ("wait", "communicate", "wait"), ("wait", "ctx", "wait"),
@@ -468,6 +506,11 @@ def run(ctx):
         labels[lab] = labels.get(lab, 0) + 1
         for cause, msg in bad:
             viols.append({"cause": cause, "msg": msg, "case": {"reuse": list(a)}})
+    mr = [(ctx.seed, ts, te, to) for ts in (0.0005, 0.02, 0.1) for te in (0.03, 0.12, 0.2) if te > ts for to in (0.15, 0.4)]
+    for a, (bad, lab) in zip(mr, ctx.pmap(run_midreuse, mr)):
+        labels[lab] = labels.get(lab, 0) + 1
+        for cause, msg in bad:
+            viols.append({"cause": cause, "msg": msg, "case": {"midreuse": list(a)}})
     pc = [(e, q) for e in POPEN_ENDS for q in POPEN_SEQS]
     for a, (bad, lab) in zip(pc, ctx.pmap(live_popen, pc, chunk=1)):
         labels[lab] = labels.get(lab, 0) + 1
@@ -488,6 +531,9 @@ def run(ctx):
 def replay(ctx, case):
     if "reuse" in case:
         bad, _ = run_reuse(tuple(case["reuse"]))
+        return {"violated": bool(bad), "viols": bad}
+    if "midreuse" in case:
+        bad, _ = run_midreuse(tuple(case["midreuse"]))
         return {"violated": bool(bad), "viols": bad}
     if "popen" in case:
         bad, _ = live_popen((tuple(case["popen"][0]), tuple(case["popen"][1])))
